@@ -4,7 +4,7 @@
 
 From Coq Require Import String.
 From JP Require Import Bytes Dec Spec Proto Value ProtoValue
-  Model.Token Model.Pointer Model.Slice Model.Index Model.Tree Model.Conv.
+  Model.Token Model.Pointer Model.Slice Model.Index Model.Tree Model.Conv Model.Cost.
 
 Definition is_op (op : str) (name : string) : bool := str_eqb op (s2b name).
 Arguments is_op _ _%string.
@@ -525,6 +525,29 @@ Definition run_cmp (op : str) (args : list str) : option str :=
     end
   else None.
 
+(* ================================================================== suite alloc ===== *)
+
+(* alloc x<text> x<other>  -> zero0 tn<0|1> td<0|1> ed<0|1|->
+     zero0: every documented zero-copy operation performed 0 allocations
+     tn: Token::new(text) allocates;  td: decoded() of that token allocates;
+     ed: decoded() of from_encoded(text) allocates ("-" if text is not a valid token) *)
+Definition run_alloc (op : str) (args : list str) : option str :=
+  if is_op op "alloc" then
+    match args with
+    | [f; g] =>
+        do s <- parse_x f; do q <- parse_x g;
+        let t := token_new false s in
+        Some (out [s2b "zero0";
+                   s2b "tn" ++ bool_field (alloc_token_new s);
+                   s2b "td" ++ bool_field (alloc_decoded (ttext t));
+                   s2b "ed" ++ match from_encoded s with
+                               | None => bool_field (alloc_decoded s)
+                               | Some _ => none_field
+                               end])
+    | _ => None
+    end
+  else None.
+
 (* ================================================================== dispatch ===== *)
 
 Fixpoint first_some {A} (l : list (option A)) : option A :=
@@ -539,7 +562,7 @@ Definition run_line (line : str) : str :=
   | op :: args =>
       match first_some [run_token op args; run_parse op args; run_tokens op args; run_slice op args;
                         run_prefix op args; run_buf op args; run_index op args; run_tree op args;
-                        run_cmp op args] with
+                        run_cmp op args; run_alloc op args] with
       | Some r => r
       | None => bad_case
       end
